@@ -122,6 +122,15 @@ pub fn misc(cfg: &Cfg, l: &[Act]) -> Vec<Act> {
             }
             _ => None,
         };
+        // a price with one decimal more than written (beyond the precision when the written one uses it up)
+        let finer = |price: &str| if price.contains('.') { format!("{price}5") } else { format!("{price}.5") };
+        match &a.req {
+            Req::CreateAsk { id, base, quote, price, size } => {
+                let funds: Vec<(u128, &str)> = a.funds.iter().map(|c| (c.amount.u128(), c.denom.as_str())).collect();
+                v.push(Act::new(&a.sender, funds, Req::CreateAsk { id: id.clone(), base: base.clone(), quote: quote.clone(), price: finer(price), size: *size }));
+            }
+            _ => {}
+        }
         if let Some(req) = respelt {
             let funds: Vec<(u128, &str)> = a.funds.iter().map(|c| (c.amount.u128(), c.denom.as_str())).collect();
             if req != a.req {
